@@ -633,6 +633,9 @@ pub fn spell_doc(f: F, v: &V, st: Style) -> Option<Vec<u8>> {
 
 /// Spells a stream of documents with the format's natural separators. `sep` picks a separator style.
 pub fn spell_stream(f: F, docs: &[V], st: Style, sep: u32) -> Option<Vec<u8>> {
+	if f == F::Toml && docs.len() != 1 {
+		return None;
+	}
 	let mut out = vec![];
 	for (i, d) in docs.iter().enumerate() {
 		let b = spell_doc(f, d, st)?;
